@@ -8,7 +8,8 @@ PROPERTY_ID = "C01"
 RULE = ("one-step programs: for every variant x message length x content pattern the one-shot function and "
         "new().update(m).finalize() are run on the real code and compared with hashlib / the validated Keccak model; "
         "BLAKE2 is swept over every outlen x keylen through ContextDyn, the Context<BITS> instantiations and the legacy "
-        "static helpers; a case is non-trivial when the message or the key is non-empty; distinct = distinct program text")
+        "static helpers; a case is non-trivial when the message or the key is non-empty; distinct = distinct program text"
+        " Also: every whole-block count 5..33 in one call with tails -1/0/+1/mid; one message of 2^29+104 bytes (bit length passing 2^32) for the 8 variants with a length counter; the advertised OUTPUT_BITS / BLOCK_BYTES constants; the whole corpus again on the checked-arithmetic build and (SHA-256 / BLAKE2 variants) on the +sse4.1, +avx, +avx2 and native builds.")
 ASSUMPTIONS = ["hashlib (OpenSSL/CPython) implements SHA-1/SHA-2/SHA-3/RIPEMD-160/BLAKE2 correctly",
                "the python Keccak sponge is correct for pad 0x01 because the same code with pad 0x06 equals hashlib.sha3_* on every length 0..2*rate+1",
                "message content is drawn from a fixed alphabet of byte patterns; lengths beyond 64 KiB are not explored"]
